@@ -123,7 +123,7 @@ func verifMirror(raw []byte) interface{} {
 				continue
 			}
 			ihl := int(buf[0]&0x0f) * 4
-			if n >= ihl+8 && int(buf[ihl+2])<<8|int(buf[ihl+3]) == c.Port && int(buf[ihl])<<8|int(buf[ihl+1]) == 55117 {
+			if n >= ihl+8 && int(buf[ihl+2])<<8|int(buf[ihl+3]) == c.Port && (int(buf[ihl])<<8|int(buf[ihl+1]) == 55117 || int(buf[ihl])<<8|int(buf[ihl+1]) == 55118) {
 				obs = verifMirrorObs{Status: "OK", Packet: hex.EncodeToString(buf[:n])}
 				break wait
 			}
